@@ -6,22 +6,20 @@ open XpmVerif.Ident
 
 theorem instanceValuesAux_mkDef (fl : Flags) (lib : List Cls) (sg : SGraph) (ids : List Nat) :
     ∀ l : List Nat,
-      (∀ n ∈ l, ∀ a ∈ (sg.g.node n).args, noTypeKey a.value = true) →
       (∀ n ∈ l, ∀ m ∈ succAll sg.g n, m ∈ ids) →
       instanceValuesAux ids (l.map (mkDef fl lib sg))
         = .ok (l.map (fun n => (n, ((sg.g.node n).args.filter present).map (fun a => (a.name, a.value)))))
-  | [], _, _ => rfl
-  | n :: l, hk, hs => by
+  | [], _ => rfl
+  | n :: l, hs => by
     have hd := decFields_enc ids
       (match findCls lib (sg.cls n) with | some c => c.data | none => [])
       ((sg.g.node n).args.filter present)
-      (fun a ha => hk n List.mem_cons_self a (List.mem_filter.1 ha).1)
       (fun a ha m hm => hs n List.mem_cons_self m (by
         have : m ∈ argRefs (sg.g.node n) := mem_argRefs_of_mem (List.mem_filter.1 ha).1 hm
         simp only [succAll, List.mem_append]
         exact Or.inl (Or.inl (Or.inl this))))
     have ih := instanceValuesAux_mkDef fl lib sg ids l
-      (fun k hk' => hk k (List.mem_cons_of_mem _ hk')) (fun k hk' => hs k (List.mem_cons_of_mem _ hk'))
+      (fun k hk' => hs k (List.mem_cons_of_mem _ hk'))
     simp only [List.map_cons, instanceValuesAux]
     have hf : (mkDef fl lib sg n).fields = ((sg.g.node n).args.filter present).map
         (fun a => (a.name, encField ((match findCls lib (sg.cls n) with | some c => c.data | none => []).contains a.name) a.value)) := rfl
@@ -32,8 +30,7 @@ theorem instanceValuesAux_mkDef (fl : Flags) (lib : List Cls) (sg : SGraph) (ids
     every written configuration and every present parameter, the configured value (references being
     the objects of the referenced configurations). -/
 theorem instanceValues_serialize (fl : Flags) (lib : List Cls) (sg : SGraph) (root : Nat)
-    (hwf : WF sg.g) (hr : root < sg.g.size)
-    (hk : ∀ n, Needed sg.g [root] n → ∀ a ∈ (sg.g.node n).args, noTypeKey a.value = true) :
+    (hwf : WF sg.g) (hr : root < sg.g.size) :
     instanceValues (serialize fl lib sg [root])
       = .ok ((serialOrder sg.g [root]).map
           (fun n => (n, ((sg.g.node n).args.filter present).map (fun a => (a.name, a.value))))) := by
@@ -41,6 +38,6 @@ theorem instanceValues_serialize (fl : Flags) (lib : List Cls) (sg : SGraph) (ro
   obtain ⟨_, hiff, _, hcl⟩ := serialOrder_spec sg.g [root] hwf hroots
   unfold instanceValues
   rw [serialize_ids]
-  exact instanceValuesAux_mkDef fl lib sg _ _ (fun n hn => hk n ((hiff n).1 hn)) hcl
+  exact instanceValuesAux_mkDef fl lib sg _ _ hcl
 
 end XpmVerif.Serial
